@@ -57,6 +57,9 @@ def tokeqObs (c : Case) : Sexp :=
       -- (`use F oo;` is the path `Foo`), a documented looseness of the grammar
       let key (k : Lex.K) : List String := match k with
         | .ident s => s.toList.map fun ch => "ident-char " ++ toString ch
+        -- `<` and `>` are part of type names (`SharedPtr<T>` is ONE name for pyxis), the lexer sees them as punctuation
+        | .punct '<' _ => ["ident-char <"]
+        | .punct '>' _ => ["ident-char >"]
         | k => [reprStr k]
       let a := ((normKinds (ts.map (·.k))).flatMap key).mergeSort (· ≤ ·)
       let b := ((normKinds (Print.printK true m)).flatMap key).mergeSort (· ≤ ·)
